@@ -916,6 +916,7 @@ def run_task(task: dict) -> dict:
             if len(samples) < 1:
                 samples.append({"layer": "L3", "cfg": cfg, "thread_switches": info["switches"], "scheduler_decisions": len(info["decisions"]),
                                 "bytes_on_the_wire": info["bytes"]})
+    stats.inc(f"distinct_{layer}", len(distinct))
     return {"stats": dict(stats), "digest": log.digest(), "violations": violations, "samples": samples,
             "distinct": len(distinct), "runs": runs}
 
@@ -1001,6 +1002,7 @@ def finalize(stats, tier, runs, distinct, samples, wall):
         "samples": samples,
         "exhaustive": False,
         "runs_by_layer": {k[5:]: v for k, v in sorted(stats.items()) if k.startswith("runs_")},
+        "distinct_by_layer": {k[9:]: v for k, v in sorted(stats.items()) if k.startswith("distinct_")},
         "simulated_time_s": round(sim_s, 3),
         "simulated_time_note": "virtual seconds on the SimLoop clock (L2); L1/L3 have no clock",
         "l1": {k[3:]: v for k, v in sorted(stats.items()) if k.startswith("l1_")},
